@@ -32,12 +32,11 @@ theorem withLabel_some {ctx : RCtx} {x : Except Abn (Option Tree × Env)} {m : T
 
 /-! ## No trace: a failed rule leaves the caller's environment as it was
 
-The only place where the evaluator hands a *changed* environment back together with a failure
-is `matchCore` (`RuleCore::do_match`): when the rule of a global utility matched and one of its
-constraints fails, the bindings made by the rule stay in the caller's environment.  Hence the
-hypothesis: global utilities carry no constraints. -/
+(Since the repair of `RuleCore::do_match` — rule and constraints work on a scratch copy of the
+caller's environment — this holds for every rule form and every registry.) -/
 
-/-- no global utility rule has constraints -/
+/-- no global utility rule has constraints (still needed by C05: the reference semantics
+ignores constraints) -/
 def NoGlobalConstraints (ctx : RCtx) : Prop :=
   ∀ id core, alookup id ctx.globals = some core → core.constraints = []
 
@@ -63,8 +62,7 @@ def NTHas (fuel : Nat) : Prop :=
 def NTHasUntil (fuel : Nat) : Prop :=
   ∀ r s cs env env', hasUntil ctx fuel r s cs env = .ok (none, env') → env' = env
 def NTCore (fuel : Nat) : Prop :=
-  ∀ core n env env', core.constraints = [] →
-    matchCore ctx fuel core n env = .ok (none, env') → env' = env
+  ∀ core n env env', matchCore ctx fuel core n env = .ok (none, env') → env' = env
 
 /-- without constraints the constraint loop is the identity -/
 theorem constraintLoop_nil (fuel : Nat) (l : List (Name × Tree)) (env : Env) (b : Bool) (env' : Env)
@@ -196,24 +194,20 @@ theorem nt_has_step (fuel : Nat) (hR : NTRule ctx fuel) (hM : NTFindMap ctx fuel
     | end_ => simp only [matchHas] at h; exact hM _ _ _ _ _ _ h
     | rule s => simp only [matchHas] at h; exact hH _ _ _ _ _ h
 
-theorem nt_core_step (fuel : Nat) (hR : NTRule ctx fuel) : NTCore ctx (fuel + 1) := by
-  intro core n env env' hc h
+theorem nt_core_step (fuel : Nat) : NTCore ctx (fuel + 1) := by
+  intro core n env env' h
   simp only [matchCore] at h
   split at h
   · simp only [Except.ok.injEq, Prod.mk.injEq, true_and] at h; exact h.symm
   · split at h
     · cases h
-    · next env1 hm =>
-      simp only [Except.ok.injEq, Prod.mk.injEq, true_and] at h; subst h
-      exact hR _ _ _ _ hm
-    · next ret env1 hm =>
-      rw [hc] at h
-      split at h
+    · simp only [Except.ok.injEq, Prod.mk.injEq, true_and] at h; exact h.symm
+    · split at h
       · cases h
       · simp at h
-      · next x hcl => have := (constraintLoop_nil ctx _ _ _ _ _ hcl).1; cases this
+      · simp only [Except.ok.injEq, Prod.mk.injEq, true_and] at h; exact h.symm
 
-theorem nt_rule_step (hG : NoGlobalConstraints ctx) (fuel : Nat) (hR : NTRule ctx fuel)
+theorem nt_rule_step (fuel : Nat) (hR : NTRule ctx fuel)
     (hI : NTInside ctx fuel) (hH : NTHas ctx fuel) (hS : NTStopBy ctx fuel) (hC : NTCore ctx fuel) :
     NTRule ctx (fuel + 1) := by
   intro r n env env' h
@@ -292,7 +286,7 @@ theorem nt_rule_step (hG : NoGlobalConstraints ctx) (fuel : Nat) (hR : NTRule ct
     split at h
     · exact hR _ _ _ _ h
     · split at h
-      · next core hc => exact hC _ _ _ _ (hG _ _ hc) h
+      · exact hC _ _ _ _ h
       · simp only [Except.ok.injEq, Prod.mk.injEq, true_and] at h; exact h.symm
   | inside r stop field =>
     simp only [matchRule] at h
@@ -308,7 +302,7 @@ theorem nt_rule_step (hG : NoGlobalConstraints ctx) (fuel : Nat) (hR : NTRule ct
     exact hS _ _ _ _ _ _ _ _ (withLabel_none h)
 
 /-- all the no-trace invariants, by induction on the fuel -/
-theorem all_notrace (hG : NoGlobalConstraints ctx) (fuel : Nat) :
+theorem all_notrace (fuel : Nat) :
     NTRule ctx fuel ∧ NTFinder ctx fuel ∧ NTFindMap ctx fuel ∧ NTUntil ctx fuel ∧
     NTStopBy ctx fuel ∧ NTInside ctx fuel ∧ NTHas ctx fuel ∧ NTHasUntil ctx fuel ∧
     NTCore ctx fuel := by
@@ -323,14 +317,14 @@ theorem all_notrace (hG : NoGlobalConstraints ctx) (fuel : Nat) :
     · intro r stop field n env env' h; simp [matchInside] at h
     · intro r stop field n env env' h; simp [matchHas] at h
     · intro r s cs env env' h; simp [hasUntil] at h
-    · intro core n env env' _ h; simp [matchCore] at h
+    · intro core n env env' h; simp [matchCore] at h
   | succ fuel ih =>
     obtain ⟨hR, hF, hM, hU, hS, hI, hH, hHU, hC⟩ := ih
-    exact ⟨nt_rule_step ctx hG fuel hR hI hH hS hC, nt_finder_step ctx fuel hR,
+    exact ⟨nt_rule_step ctx fuel hR hI hH hS hC, nt_finder_step ctx fuel hR,
       nt_findMap_step ctx fuel hF hM, nt_until_step ctx fuel hF hU,
       nt_stopBy_step ctx fuel hF hM hU, nt_inside_step ctx fuel hS,
       nt_has_step ctx fuel hR hM hHU, nt_hasUntil_step ctx fuel hR hHU,
-      nt_core_step ctx fuel hR⟩
+      nt_core_step ctx fuel⟩
 
 end
 
@@ -936,13 +930,13 @@ theorem ex_core_step (fuel : Nat) (hR : ExRule ctx fuel) (hC : ExCons ctx fuel) 
   · simp only [Except.ok.injEq] at h; subst h; exact EnvLe.refl _ _
   · split at h
     · cases h
-    · next hm => simp only [Except.ok.injEq] at h; subst h; exact hR _ _ _ _ hm
+    · simp only [Except.ok.injEq] at h; subst h; exact EnvLe.refl _ _
     · next ret env1 hm =>
       have g1 := hR _ _ _ _ hm
       split at h
       · cases h
       · next hc => simp only [Except.ok.injEq] at h; subst h; exact g1.trans (hC _ _ _ _ hc)
-      · simp only [Except.ok.injEq] at h; subst h; exact g1
+      · simp only [Except.ok.injEq] at h; subst h; exact EnvLe.refl _ _
 
 theorem ex_rule_step (fuel : Nat) (hR : ExRule ctx fuel) (hAl : ExAll ctx fuel)
     (hAn : ExAny ctx fuel) (hI : ExInside ctx fuel) (hH : ExHas ctx fuel) (hS : ExStopBy ctx fuel)
@@ -1547,17 +1541,18 @@ theorem allLoop_of_chain (fuel : Nat) (rs : List Rule) (n : Tree) (env env' : En
     rw [matchRule_fuel_mono ctx (by omega) h1]
     exact ih _ h2
 
-/-- the exact outcome of `matchCore` (`RuleCore::do_match`), case by case -/
+/-- the exact outcome of `matchCore` (`RuleCore::do_match`), case by case: every failure hands
+the caller's environment back -/
 theorem matchCore_cases (fuel : Nat) (core : RuleCore) (n : Tree) (env : Env)
     (res : Option Tree) (env' : Env) (h : matchCore ctx fuel core n env = .ok (res, env')) :
     (kindsGate core.kinds n = false ∧ res = none ∧ env' = env) ∨
     (kindsGate core.kinds n = true ∧
-      ((matchRule ctx fuel core.rule n env = .ok (none, env') ∧ res = none) ∨
+      ((∃ env1, matchRule ctx fuel core.rule n env = .ok (none, env1) ∧ res = none ∧ env' = env) ∨
        (∃ ret env1, matchRule ctx fuel core.rule n env = .ok (some ret, env1) ∧
           ((constraintLoop ctx fuel core.constraints (sortByName env1.single) env1 = .ok (true, env') ∧
               res = some ret) ∨
            (∃ env2, constraintLoop ctx fuel core.constraints (sortByName env1.single) env1 = .ok (false, env2) ∧
-              res = none ∧ env' = env1))))) := by
+              res = none ∧ env' = env))))) := by
   cases fuel with
   | zero => simp [matchCore] at h
   | succ fuel =>
@@ -1573,7 +1568,7 @@ theorem matchCore_cases (fuel : Nat) (core : RuleCore) (n : Tree) (env : Env)
       · next env1 hm =>
         simp only [Except.ok.injEq, Prod.mk.injEq] at h
         obtain ⟨rfl, rfl⟩ := h
-        exact .inl ⟨matchRule_fuel_mono ctx (Nat.le_succ _) hm, rfl⟩
+        exact .inl ⟨env1, matchRule_fuel_mono ctx (Nat.le_succ _) hm, rfl, rfl⟩
       · next ret env1 hm =>
         refine .inr ⟨ret, env1, matchRule_fuel_mono ctx (Nat.le_succ _) hm, ?_⟩
         split at h
@@ -1611,7 +1606,7 @@ theorem finderStep_some {fuel : Nat} {r : Rule} {field : Option Nat} {eid : Nat}
         · simp at h
         · exact matchRule_fuel_mono ctx (Nat.le_succ _) h
 
-theorem findMapRule_winner (hG : NoGlobalConstraints ctx) (fuel : Nat) (r : Rule)
+theorem findMapRule_winner (fuel : Nat) (r : Rule)
     (field : Option Nat) (eid : Nat) (cs : List Tree) (env : Env) (m : Tree) (env' : Env)
     (h : findMapRule ctx fuel r field eid cs env = .ok (some m, env')) :
     ∃ c ∈ cs, matchRule ctx fuel r c env = .ok (some m, env') := by
@@ -1629,12 +1624,12 @@ theorem findMapRule_winner (hG : NoGlobalConstraints ctx) (fuel : Nat) (r : Rule
         obtain ⟨rfl, rfl⟩ := h
         exact ⟨c, by simp, matchRule_fuel_mono ctx (Nat.le_succ _) (finderStep_some ctx hf)⟩
       · next env1 hf =>
-        have := (all_notrace ctx hG fuel).2.1 _ _ _ _ _ _ hf
+        have := (all_notrace ctx fuel).2.1 _ _ _ _ _ _ hf
         subst this
         obtain ⟨c', hc', hm⟩ := ih _ _ h
         exact ⟨c', by simp [hc'], matchRule_fuel_mono ctx (Nat.le_succ _) hm⟩
 
-theorem findMapUntil_winner (hG : NoGlobalConstraints ctx) (fuel : Nat) (r s : Rule)
+theorem findMapUntil_winner (fuel : Nat) (r s : Rule)
     (field : Option Nat) (eid : Nat) (st : Bool) (cs : List Tree) (env : Env) (m : Tree) (env' : Env)
     (h : findMapUntil ctx fuel r s field eid st cs env = .ok (some m, env')) :
     ∃ c ∈ cs, matchRule ctx fuel r c env = .ok (some m, env') := by
@@ -1656,12 +1651,12 @@ theorem findMapUntil_winner (hG : NoGlobalConstraints ctx) (fuel : Nat) (r s : R
             obtain ⟨rfl, rfl⟩ := h
             exact ⟨c, by simp, matchRule_fuel_mono ctx (Nat.le_succ _) (finderStep_some ctx hf)⟩
           · next env1 hf =>
-            have := (all_notrace ctx hG fuel).2.1 _ _ _ _ _ _ hf
+            have := (all_notrace ctx fuel).2.1 _ _ _ _ _ _ hf
             subst this
             obtain ⟨c', hc', hm⟩ := ih _ _ _ h
             exact ⟨c', by simp [hc'], matchRule_fuel_mono ctx (Nat.le_succ _) hm⟩
 
-theorem stopByFind_winner (hG : NoGlobalConstraints ctx) (fuel : Nat) (stop : StopBy) (r : Rule)
+theorem stopByFind_winner (fuel : Nat) (stop : StopBy) (r : Rule)
     (field : Option Nat) (eid : Nat) (once : Option Tree) (multi : List Tree) (env : Env)
     (m : Tree) (env' : Env)
     (h : stopByFind ctx fuel stop r field eid once multi env = .ok (some m, env')) :
@@ -1678,14 +1673,14 @@ theorem stopByFind_winner (hG : NoGlobalConstraints ctx) (fuel : Nat) (stop : St
         exact ⟨c, .inl rfl, matchRule_fuel_mono ctx (Nat.le_succ _) (finderStep_some ctx h)⟩
     | end_ =>
       simp only [stopByFind] at h
-      obtain ⟨c, hc, hm⟩ := findMapRule_winner ctx hG fuel r field eid multi env m env' h
+      obtain ⟨c, hc, hm⟩ := findMapRule_winner ctx fuel r field eid multi env m env' h
       exact ⟨c, .inr hc, matchRule_fuel_mono ctx (Nat.le_succ _) hm⟩
     | rule s =>
       simp only [stopByFind] at h
-      obtain ⟨c, hc, hm⟩ := findMapUntil_winner ctx hG fuel r s field eid false multi env m env' h
+      obtain ⟨c, hc, hm⟩ := findMapUntil_winner ctx fuel r s field eid false multi env m env' h
       exact ⟨c, .inr hc, matchRule_fuel_mono ctx (Nat.le_succ _) hm⟩
 
-theorem hasUntil_winner (hG : NoGlobalConstraints ctx) (fuel : Nat) (r s : Rule) (cs : List Tree)
+theorem hasUntil_winner (fuel : Nat) (r s : Rule) (cs : List Tree)
     (env : Env) (m : Tree) (env' : Env) (h : hasUntil ctx fuel r s cs env = .ok (some m, env')) :
     ∃ c ∈ Tree.preorderList cs, matchRule ctx fuel r c env = .ok (some m, env') := by
   induction fuel generalizing cs with
@@ -1709,7 +1704,7 @@ theorem hasUntil_winner (hG : NoGlobalConstraints ctx) (fuel : Nat) (r s : Rule)
         obtain ⟨rfl, rfl⟩ := h
         exact ⟨c, hself, matchRule_fuel_mono ctx (Nat.le_succ _) hm⟩
       · next env1 hm =>
-        have := (all_notrace ctx hG fuel).1 _ _ _ _ hm
+        have := (all_notrace ctx fuel).1 _ _ _ _ hm
         subst this
         split at h
         · cases h
@@ -1723,12 +1718,12 @@ theorem hasUntil_winner (hG : NoGlobalConstraints ctx) (fuel : Nat) (r s : Rule)
             obtain ⟨d, hd, hm'⟩ := ih _ hh
             exact ⟨d, hkids d hd, matchRule_fuel_mono ctx (Nat.le_succ _) hm'⟩
           · next env2 hh =>
-            have := (all_notrace ctx hG fuel).2.2.2.2.2.2.2.1 _ _ _ _ _ hh
+            have := (all_notrace ctx fuel).2.2.2.2.2.2.2.1 _ _ _ _ _ hh
             subst this
             obtain ⟨d, hd, hm'⟩ := ih _ h
             exact ⟨d, hrest d hd, matchRule_fuel_mono ctx (Nat.le_succ _) hm'⟩
 
-theorem matchHas_winner (hG : NoGlobalConstraints ctx) (fuel : Nat) (r : Rule) (stop : StopBy)
+theorem matchHas_winner (fuel : Nat) (r : Rule) (stop : StopBy)
     (field : Option Nat) (n : Tree) (env : Env) (m : Tree) (env' : Env)
     (h : matchHas ctx fuel r stop field n env = .ok (some m, env')) :
     ∃ c ∈ Tree.preorderList n.children, matchRule ctx fuel r c env = .ok (some m, env') := by
@@ -1758,7 +1753,7 @@ theorem matchHas_winner (hG : NoGlobalConstraints ctx) (fuel : Nat) (r : Rule) (
           unfold childByField at hnd; exact List.mem_of_find?_eq_some hnd
         split at h
         · exact ⟨nd, hchild nd hndc nd (hself nd), matchRule_fuel_mono ctx (Nat.le_succ _) h⟩
-        · obtain ⟨c, hc, hm⟩ := findMapRule_winner ctx hG fuel r none 0 _ env m env' h
+        · obtain ⟨c, hc, hm⟩ := findMapRule_winner ctx fuel r none 0 _ env m env' h
           exact ⟨c, hchild nd hndc c hc, matchRule_fuel_mono ctx (Nat.le_succ _) hm⟩
         · split at h
           · cases h
@@ -1767,27 +1762,27 @@ theorem matchHas_winner (hG : NoGlobalConstraints ctx) (fuel : Nat) (r : Rule) (
             obtain ⟨rfl, rfl⟩ := h
             exact ⟨nd, hchild nd hndc nd (hself nd), matchRule_fuel_mono ctx (Nat.le_succ _) hm⟩
           · next env1 hm =>
-            have := (all_notrace ctx hG fuel).1 _ _ _ _ hm
+            have := (all_notrace ctx fuel).1 _ _ _ _ hm
             subst this
             split at h
             · cases h
             · simp at h
-            · obtain ⟨c, hc, hm'⟩ := hasUntil_winner ctx hG fuel r _ _ _ m env' h
+            · obtain ⟨c, hc, hm'⟩ := hasUntil_winner ctx fuel r _ _ _ m env' h
               exact ⟨c, hchild nd hndc c (hsub nd c hc), matchRule_fuel_mono ctx (Nat.le_succ _) hm'⟩
     | none =>
       cases stop with
       | neighbor =>
         simp only [matchHas] at h
-        obtain ⟨c, hc, hm⟩ := findMapRule_winner ctx hG fuel r none 0 _ env m env' h
+        obtain ⟨c, hc, hm⟩ := findMapRule_winner ctx fuel r none 0 _ env m env' h
         exact ⟨c, hchild c hc c (hself c), matchRule_fuel_mono ctx (Nat.le_succ _) hm⟩
       | end_ =>
         simp only [matchHas] at h
-        obtain ⟨c, hc, hm⟩ := findMapRule_winner ctx hG fuel r none 0 _ env m env' h
+        obtain ⟨c, hc, hm⟩ := findMapRule_winner ctx fuel r none 0 _ env m env' h
         refine ⟨c, ?_, matchRule_fuel_mono ctx (Nat.le_succ _) hm⟩
         cases n; simpa [Tree.preorder, Tree.children] using hc
       | rule s =>
         simp only [matchHas] at h
-        obtain ⟨c, hc, hm⟩ := hasUntil_winner ctx hG fuel r s _ env m env' h
+        obtain ⟨c, hc, hm⟩ := hasUntil_winner ctx fuel r s _ env m env' h
         exact ⟨c, hc, matchRule_fuel_mono ctx (Nat.le_succ _) hm⟩
 
 end
